@@ -18,6 +18,8 @@ CLAIMED = {
          "7.C13", "Coq proof (string induction) + extracted-model correspondence incl. exhaustive sweeps"),
  "C14": ("Coq theorems: wheel/sdist encode-decode round trips (canonical name, identical version, build tuple, cartesian product of tags), parse_tag(str(t)) = {t}, Tag case-insensitivity, each rejection class gives the documented error and nothing else; tied to the code by encode/decode correspondence on generated components and structural damage",
          "7.C14", "Coq proof (round trip / rejection lemmas) + extracted-model correspondence"),
+ "C10": ("Coq theorems: Version equality is an equivalence, equal versions have identical keys (hence equal hashes) and are interchangeable in every comparison; Specifier equality/hash are functions of the canonical key and equal specifiers match the same candidates under every pre-release setting (through the denotation of the canonical text); for all six types the laws are also evaluated directly on real objects built from spelling/zero/case/order/normalisation variants; the SpecifierSet/Marker/Requirement/Tag theorems live with their own models",
+         "7.C10", "Coq proof (key functions, congruence) + direct law oracles on the implementation + model correspondence of ==" ),
 }
 NA_REASON = "check not built yet in this revision (planned, see DESIGN.md section 7); nothing is claimed"
 checks, na = [], []
